@@ -1,12 +1,50 @@
 import WM.Proto
+import WM.Drv.C01
+import WM.Drv.C02
+import WM.Drv.C03
+import WM.Drv.C04
+import WM.Drv.C05
+import WM.Drv.C06
+import WM.Drv.C07
+import WM.Drv.C08
+import WM.Drv.C09
+import WM.Drv.C10
+import WM.Drv.C11
+import WM.Drv.C12
+import WM.Drv.C13
+import WM.Drv.C14
+import WM.Drv.C15
+import WM.Drv.C16
+import WM.Drv.C17
+import WM.Drv.C18
+import WM.Drv.C19
 import WM.Drv.C20
-/-! Line-protocol driver: first token selects the family. -/
+/-! Line-protocol driver: the first token selects the family, the family module does the rest. -/
 open WM.Proto
 
 def dispatch (line : String) : String :=
   match parseLine line with
   | some (.atom fam :: args) =>
     match fam with
+    | "c01" => WM.Drv.C01.handle args
+    | "c02" => WM.Drv.C02.handle args
+    | "c03" => WM.Drv.C03.handle args
+    | "c04" => WM.Drv.C04.handle args
+    | "c05" => WM.Drv.C05.handle args
+    | "c06" => WM.Drv.C06.handle args
+    | "c07" => WM.Drv.C07.handle args
+    | "c08" => WM.Drv.C08.handle args
+    | "c09" => WM.Drv.C09.handle args
+    | "c10" => WM.Drv.C10.handle args
+    | "c11" => WM.Drv.C11.handle args
+    | "c12" => WM.Drv.C12.handle args
+    | "c13" => WM.Drv.C13.handle args
+    | "c14" => WM.Drv.C14.handle args
+    | "c15" => WM.Drv.C15.handle args
+    | "c16" => WM.Drv.C16.handle args
+    | "c17" => WM.Drv.C17.handle args
+    | "c18" => WM.Drv.C18.handle args
+    | "c19" => WM.Drv.C19.handle args
     | "c20" => WM.Drv.C20.handle args
     | "ping" => "pong"
     | _ => "bad-op"
